@@ -1,4 +1,72 @@
-import Sparrow.Model.Lifecycle
+import Sparrow.Proofs.LifeLemmas
+import Sparrow.Generated.Lifecycle
+/-
+  C16 — A baked object can be reused: results depend only on the final configuration.
+-/
 namespace Sparrow.Props.C16
-theorem placeholder : True := trivial
+open Sparrow.Life Sparrow.Generated
+
+/-- For every history of the grammar `setters* ; bake+ ; (init+ ; exchange(recalculate)+)*` the
+    whole state — hence every histogram and every receiver curve — equals that of a fresh object
+    configured the same way (same setters, one bake, the last source, the last parameters). -/
+theorem config_determines (W : Nat) (g : String) (h : Hist)
+    (hset : ∀ o ∈ h.setters, o.isSetter = true) :
+    run (fresh W g) h.ops = run (fresh W g) h.canonical :=
+  Sparrow.Life.config_determines W g h hset
+
+/-- Repeating a stage with the same arguments changes nothing. -/
+theorem stage_idempotent (s : St) (op : Op)
+    (h : op = .bake ∨ (∃ src, op = .init src) ∨ (∃ p z r, op = .exchange p z r) ∨ (∃ a, op = .setAtt a) ∨
+      op = .saveRestore) :
+    step (step s op) op = step s op :=
+  Sparrow.Life.stage_idempotent s op h
+
+/-- The order of the setters does not matter: attenuation and wall BRDF commute exactly … -/
+theorem setAtt_setBrdf_comm (s : St) (a : String) (walls : List Nat) (m : String) :
+    setAtt (setBrdf s walls m) a = setBrdf (setAtt s a) walls m :=
+  Sparrow.Life.setAtt_setBrdf_comm s a walls m
+
+/-- … two wall-BRDF calls on disjoint wall sets commute up to the private numbering of the
+    tables, provided every wall ends up with a table (the proof forces this: a wall without a
+    table reads `_brdf[-1]`, the table set *last* — `setBrdf_comm_counterexample`; the real code
+    cannot bake such a state at all, its direction list holds `None` for that wall) … -/
+theorem setBrdf_comm (s : St) (w1 w2 : List Nat) (m1 m2 : String)
+    (hdisj : ∀ w, w ∈ w1 → w ∉ w2)
+    (hcover : ∀ w, w < s.W → w ∈ w1 ∨ w ∈ w2 ∨
+      (s.dirsIn.isSome = true ∧ ∃ ix, s.index = some ix ∧ 0 ≤ ix.getD w (-1) ∧ ix.length = s.W))
+    (hlen : s.dirsIn.isSome = true → (s.dirsIn.getD []).length = s.W ∧ (s.dirsOut.getD []).length = s.W ∧
+      s.dirsOut.isSome = true ∧ ∀ ix, s.index = some ix → ∀ w, w < s.W → ix.getD w (-1) < s.brdf.length)
+    (hixlen : s.dirsIn.isSome = true → ∀ ix, s.index = some ix → s.W ≤ ix.length) :
+    matEq (setBrdf (setBrdf s w1 m1) w2 m2) (setBrdf (setBrdf s w2 m2) w1 m1) :=
+  Sparrow.Life.setBrdf_comm s w1 w2 m1 m2 hdisj hcover hlen hixlen
+
+/-- … and everything downstream reads the materials only through the per-wall effective
+    tables, so objects with the same materials stay indistinguishable. -/
+theorem same_materials_same_results (a b : St) (h : matEq a b) (op : Op) (hop : op.isSetter = false) :
+    matEq (step a op) (step b op) :=
+  Sparrow.Life.matEq_step a b h op hop
+
+/-- No method of the class stores into, augments or calls a mutating method on one of its
+    parameters (list of such sites extracted from the source: empty). -/
+theorem inputs_untouched : paramMutationSites = [] := by decide
+
+/-- The read footprints that make the above true of the code: the energy exchange reads only
+    what init and bake wrote (plus geometry); init reads geometry and materials only. -/
+theorem read_footprints_as_modelled :
+    reads "calculate_energy_exchange" = ["_distance_patches_to_source", "_energy_exchange_etc", "_energy_init_source",
+      "_form_factors_tilde", "_n_patches", "_patch_2_brdf_outgoing_index", "_patches_points", "_visible_patches"] ∧
+    reads "init_source_energy" = ["_air_attenuation", "_brdf", "_brdf_incoming_directions", "_brdf_index",
+      "_brdf_outgoing_directions", "_frequencies", "_patch_to_wall_ids", "_patches_points", "_walls_normal",
+      "_walls_points", "_walls_up_vector"] ∧
+    ((reads "bake_geometry").all fun a => !(["_energy_init_source", "_energy_exchange_etc", "_distance_patches_to_source",
+      "_source", "_speed_of_sound", "_etc_duration", "_etc_time_resolution"].contains a)) = true := by decide
+
+/-- Non-vacuity: a history with two bakes, two cycles, repeated inits and exchanges. -/
+example : run (fresh 6 "G")
+    (Hist.ops { setters := [.setBrdf [0, 1, 2, 3, 4, 5] "m", .setAtt "a"], extraBakes := 1,
+                cycles := [{ src := "s1", extraInits := 1, exchanges := [("p0", false)], lastPar := "p1", lastZero := true }],
+                last := { src := "s2", extraInits := 0, exchanges := [], lastPar := "p2", lastZero := false } }) =
+  run (fresh 6 "G") [.setBrdf [0, 1, 2, 3, 4, 5] "m", .setAtt "a", .bake, .init "s2", .exchange "p2" false true] :=
+  config_determines 6 "G" _ (by decide)
+
 end Sparrow.Props.C16
